@@ -35,7 +35,11 @@ class PinvRegistry(object):
         self.count += 1
         self.mats[tag] = m.copy()
         n = m.shape[0]
-        return Arr((n, n), [Poly.sym('%s_%d_%d' % (tag, a, b)) for a in range(n) for b in range(n)])
+        names = ['%s_%d_%d' % (tag, a, b) for a in range(n) for b in range(n)]
+        if any(isinstance(v, Poly) and not v.is_real() for v in m.items()):
+            from . import algebra
+            algebra.COMPLEX_ATOMS.update(names)      # the inverse of a complex matrix is complex
+        return Arr((n, n), [Poly.sym(nm) for nm in names])
 
     def lstsq_hook(self, models, a, b, *args, **kw):
         """linalg.lstsq(A, b) for a square (assumed invertible) A: x = inv(A) b with inv(A) kept symbolic."""
@@ -282,9 +286,27 @@ def _mat_key(M):
     return 'M[' + ';'.join(repr(e) for e in M.items()) + ']' + repr(M.shape)
 
 
+def _canon_str(text, reg):
+    """rename W<k>_ tokens (also inside the names of opaque atoms) after the content of their matrix"""
+    import re
+
+    def sub(m):
+        tag = m.group(1)
+        if tag in reg.mats:
+            return 'W{%s}_' % _mat_key(reg.mats[tag])
+        return m.group(0)
+    return re.sub(r'(W\d+)_', sub, text)
+
+
 def canon_poly(p, reg):
     if not isinstance(p, Poly):
-        return repr(p)
+        return _canon_str(repr(p), reg)
+    if True:
+        out = []
+        for mono, c in p.t.items():
+            m2 = tuple(sorted((_canon_str(s_, reg), e) for s_, e in mono))
+            out.append((m2, repr(c)))
+        return repr(sorted(out))
     ren = {}
     for a in p.atoms():
         if a[0] == 'W' and '_' in a and a.split('_')[0] in reg.mats:
@@ -314,7 +336,9 @@ def canon_value(v, reg):
         return ('fv', tuple(sorted(terms)))
     if isinstance(v, Poly):
         return canon_poly(v, reg)
+    if isinstance(v, Rat):
+        return ('rat', canon_poly(v.n, reg), canon_poly(v.d, reg))
     if isinstance(v, Obj):
         return ('obj', v.cls.name, tuple(sorted((k, canon_value(x, reg)) for k, x in v.attrs.items()
                                                if not callable(x) and not isinstance(x, Obj))))
-    return repr(v)
+    return _canon_str(repr(v), reg)
